@@ -1439,7 +1439,7 @@ class Engine:
             sp = self.schema.get_attr_special(self, obj, attr, st)
             if sp is not None:
                 return sp
-        if k in ("set", "list", "dict", "bytes", "str", "tuple", "gen", "seq", "nx_keydict"):
+        if k in ("set", "list", "dict", "bytes", "str", "tuple", "gen", "seq", "mapseq", "nx_keydict"):
             return SV("boundbuiltin", x=(obj, attr))
         if k == "val" and attr == "value" and obj.x == "enum":
             return sv_int(enum_(obj.t))
